@@ -289,6 +289,7 @@ fn check(
 			Outcome::Sub(..) => "subscribe",
 			Outcome::Notif(..) => "notification",
 			Outcome::Handler(..) => "handler",
+			Outcome::Cancelled => "cancelled",
 		};
 		let phase = if late { "late" } else { "pending" };
 		let mut on_err = |e: &str| {
